@@ -1,16 +1,17 @@
 #!/bin/bash
-# usage: tools_try.sh <patch-file | revert:<commit>> <ID> [tier]   — apply a change to /repo, run one check, undo the change
+# usage: tools_try.sh <patch-file | revert:<commit>> <ID> [tier]   — run one check against a scratch
+# worktree of /repo HEAD with a change applied (/repo itself is not touched)
 set -u
 what="$1"; id="$2"; tier="${3:-quick}"
-cd /repo || exit 2
-if ! git diff --quiet; then echo "/repo has uncommitted changes"; exit 2; fi
+wt=/var/tmp/vtry.$$
+git -C /repo worktree add -q --detach $wt HEAD || exit 2
+trap 'git -C /repo worktree remove --force $wt 2>/dev/null' EXIT
+cd $wt || exit 2
 if [[ "$what" == revert:* ]]; then
   c="${what#revert:}"
   git diff "$c^" "$c" | git apply -R || { echo "cannot revert $c"; exit 2; }
 else
   git apply "$what" || { echo "cannot apply $what"; exit 2; }
 fi
-cd /verif && VERIF_EVIDENCE_DIR=/var/tmp/verif-evidence-scratch ./check "$id" --tier "$tier" 2>&1 | grep -v "rapid\] draw" | tail -${TAIL:-6}
-rc=${PIPESTATUS[0]}
-git -C /repo checkout -- . && git -C /repo status --short | head -3
-exit $rc
+cd /verif && VERIF_REPO=$wt VERIF_EVIDENCE_DIR=/var/tmp/verif-evidence-scratch ./check "$id" --tier "$tier" 2>&1 | grep -v "rapid\] draw\|WARNING" | tail -${TAIL:-6}
+exit ${PIPESTATUS[0]}
